@@ -263,8 +263,10 @@ def run(ctx):
     import mgr_common as mc
     ncases = []
     for i in range(ctx.pick(120, 2500)):
-        c = mc.gen_history(ctx.rng, ["assign", "mixed", "dag"][i % 3], nofun=True, attrdict=(i % 2 == 0))
+        c = mc.gen_history(ctx.rng, ["assign", "mixed", "dag", "frozen", "windows"][i % 5], nofun=True, attrdict=(i % 2 == 0))
         lv = mc.leaves_of(c)
+        if ctx.rng.random() < 0.25:         # the state at the moment of pickling: frozen / unfrozen again
+            c["ops"] += [["freeze"]] if ctx.rng.random() < 0.7 else [["freeze"], ["unfreeze"]]
         c["ops"].append(["picklecheck", [[ctx.rng.choice(lv), ctx.rng.randint(-9, 9)] for _ in range(4)]])
         ncases.append(c)
     nested_fail = []
